@@ -37,3 +37,19 @@ package signature
 //@ func PublicKey.IsValid
 //@   trusted
 //@   pure
+
+// ---- multi-signed envelopes (C17): who signed ----
+
+//@ func MultiSigned.IsSignedBy
+//@   props C17
+//@   requires s != nil
+//@   modifies nothing
+//@   loop 1 invariant forall j int :: 0 <= j && j < idx() ==> s.Signatures[j].PublicKey != pk
+//@   ensures result == (exists j int :: 0 <= j && j < len(s.Signatures) && s.Signatures[j].PublicKey == pk)
+
+//@ func MultiSigned.IsOnlySignedBy
+//@   props C17
+//@   requires s != nil
+//@   modifies nothing
+//@   loop 2 invariant forall j int :: 0 <= j && j < idx() ==> inDom(m, pks[j])
+//@   ensures result ==> (forall j int :: 0 <= j && j < len(pks) ==> inDom(m, pks[j]))
